@@ -5,6 +5,7 @@ import ActixModel.Model.PanicWs
 import ActixModel.Model.PanicRange
 import ActixModel.Model.PanicPath
 import ActixModel.Model.PanicInfo
+import ActixModel.Model.PanicCD
 /-
 Line-protocol driver for C19.  One case = `<entry> key=value… <hex bytes>`.
 
@@ -164,6 +165,24 @@ def runInfo (ws : List String) : String :=
     "host=" ++ hexNats r.host ++ " scheme=" ++ hexNats r.scheme ++ " realip=" ++
       (match r.realip with | some x => hexNats x | none => "~")
 
+def showParam : CD.Param → String
+  | .name v => "N:" ++ hexNats v
+  | .filename v => "F:" ++ hexNats v
+  | .unknown n v => "U:" ++ hexNats n ++ ":" ++ hexNats v
+
+def runCd (ws : List String) : String :=
+  let v := payload ws
+  if v.contains 42 then "unmodelled"        -- extended parameters: `parse_extended_value` is not modelled
+  else if !validHv v then "badhv"
+  else match CD.fromRaw v with
+    | .panic _ => "PANIC"
+    | .err _ => "err"
+    | .ok (t, ps) =>
+      let ts := match t with
+        | .inline => "inline" | .attachment => "attachment" | .formData => "form-data"
+        | .ext s => "ext:" ++ hexNats s
+      "ok t=" ++ ts ++ " p=" ++ (if ps.isEmpty then "-" else joinWith "," (ps.map showParam))
+
 def run (line : String) : String :=
   let ws := words line
   match ws.head? with
@@ -175,6 +194,7 @@ def run (line : String) : String :=
   | some "frange" => runFrange ws
   | some "rpath" => runRpath ws
   | some "infom" => runInfo ws
+  | some "cdm" => runCd ws
   | some _ => "unmodelled"
   | none => "bad-case"
 
